@@ -474,7 +474,7 @@ def macro_population(tier, seed):
 def precmac_population(tier, seed):
     import sugar
     rng = random.Random(seed * 23 + 7703)
-    n = 40 if tier == "quick" else 300
+    n = 40 if tier == "quick" else 120
     out = []
     for i in range(n):
         sg = sugar.precmac_grammar(rng, i)
